@@ -555,8 +555,10 @@ func (obj *Package) Unexport(name string) {
 	name = strings.ToLower(name)
 	obj.mu.Lock()
 	// TBD remove from Exports list
+	// An entry inherited from a used package is not this package's to
+	// unexport.
 	if obj.funcs != nil {
-		if fi := obj.funcs[name]; fi != nil {
+		if fi := obj.funcs[name]; fi != nil && fi.Pkg == obj {
 			fi.Export = false
 			for _, u := range obj.Users {
 				u.mu.Lock()
@@ -568,7 +570,7 @@ func (obj *Package) Unexport(name string) {
 		}
 	}
 	if obj.vars != nil {
-		if vv := obj.vars[name]; vv != nil {
+		if vv := obj.vars[name]; vv != nil && vv.Pkg == obj {
 			vv.Export = false
 			for _, u := range obj.Users {
 				u.mu.Lock()
